@@ -67,3 +67,14 @@ Example kept_alive_example :
   /\ exists resp, parse_stream [false] (wire (o_writes res)) = ([resp], [])
                   /\ rs_body resp = lit "hello" /\ rs_framing resp = FLength 5.
 Proof. vm_compute. repeat split; try reflexivity. eexists. repeat split; reflexivity. Qed.
+
+Lemma py_cap_cl : beqb (py_cap (lit "Content-Length")) (lit "Connection") = false.
+Proof. reflexivity. Qed.
+
+(* the hypotheses of the declared-length frame theorem are satisfiable *)
+Example frame_len_hypotheses :
+  beqb (py_lower (lit "Content-Length")) (lit "content-length") = true
+  /\ py_int (lit "5") = Some 5%Z /\ all_digits (lit "5") = true /\ Z.of_N (dec_value (lit "5")) = 5%Z
+  /\ norm_name py_cap (lit "content-LENGTH") = lit "Content-Length"
+  /\ Z.of_nat (length (concat [lit "he"; []; lit "llo"])) = 5%Z.
+Proof. repeat split; reflexivity. Qed.
